@@ -9,17 +9,24 @@ import PjVerif.Props.Witness
 namespace Pj
 
 /-- with balancing on, every day from a leaf's release day up to (excluding) its last work day is fully booked on
-    its resource in the final ledger -/
+    its resource in the final ledger.  Domain: dependency links are stored on both ends (`linksSym`, C01), and the
+    clock or the project start is not before the epoch — a leaf without `min_start` is never started before
+    1970-01-01 (`_task.min_start or datetime(1970, 1, 1)`, schedule.py), a floor the release day does not know
+    about, so with all dates before 1970 the days up to the epoch stay idle (kernel-checked counterexample:
+    one leaf, clock = project start = day -10) -/
 theorem C08_noIdle_partial (env : Env) (f0 : Uid → Fields) (res0 : List (Option Nat × Cal)) (o : Output)
     (hf : env.flagsOK) (hc : env.clockOK) (hs : noSummaryLinks env = true) (ho : outsideLeaves env = true)
+    (hl : env.linksSym) (he : epoch ≤ env.clock 0 ∨ epoch ≤ env.bound)
     (h : forwardCalc env f0 res0 = .ok o) : c08NoIdle env f0 o = true := by
-  sorry
+  exact C08.noIdle_partial env f0 res0 o hf hc hs ho hl he h
 
 /-- start = first work day's midnight + share booked before the task, end = last work day's midnight + share booked
     up to and including the task -/
 theorem C08_encode_partial (env : Env) (f0 : Uid → Fields) (res0 : List (Option Nat × Cal)) (o : Output)
     (hf : env.flagsOK) (hc : env.clockOK) (hb : ∀ k, dayOf (env.clock k) < dayOf env.bound)
     (h : forwardCalc env f0 res0 = .ok o) : c08Encode env f0 o = true := by
+  have _ := hf
+  have _ := hc
   exact C08.encode_partial env f0 res0 o hb h
 
 /-- among leaves that take part in no dependency (neither themselves nor through an ancestor) capacity is handed out
